@@ -53,6 +53,19 @@ def handle (s : St) (ws : List String) : St × String :=
   | ["new", stmt, rn, tt, tm] => match stmt.toNat?, rn.toNat?, optB tt, optB tm with
     | some st, some rn, some (some tt), some (some tm) => ({ stmt := st, nextRunNo := rn, tt := tt, tm := tm }, "ok")
     | _, _, _, _ => (s, "bad-op")
+  | ["kclose", r, _k] =>
+    -- `kclose r k`: the child exits and, k scheduler steps later (anywhere between the exit of the process and the end of the
+    -- `finish` transition), a fresh task calls close(); serially: childExit, then close — whatever k is
+    if s.waitBlocked || s.closeBlocked then (s, "skipped") else
+    match optN r with
+    | some r =>
+      if s.childAlive then
+        let (s1, o1) := step s (.childExit r)
+        let (s2, o2) := step s1 .close
+        (s2, " ".intercalate ((o1 ++ o2).map obsS ++ tailS s2))
+      else
+        (s, " ".intercalate (tailS s))
+    | none => (s, "bad-op")
   | [cmd, r] =>
     -- `xreset r` / `xclose r`: the child exits and a caller that watches the state attribute calls reset()/close() the
     -- moment it reads 'finished' (the `finish` transition may still be in progress); serially: childExit, then the call
